@@ -270,13 +270,46 @@ impl Session {
         s.flush()
     }
 
+    /// write text without a line terminator
+    pub fn send_raw(&mut self, text: &str) -> std::io::Result<()> {
+        let s = self.stdin.as_mut().expect("stdin open");
+        for chunk in text.as_bytes().chunks(16 * 1024) {
+            s.write_all(chunk)?;
+        }
+        s.flush()
+    }
+
     /// close stdin (EOF), wait for the exit, return the rest of both streams
     pub fn finish(mut self, timeout: Duration) -> (Vec<u8>, Vec<u8>, Option<i32>, bool) {
         self.stdin.take();
         self.stdin_fd = None;
-        let (status, timed_out) = wait_with_timeout(&mut self.child, timeout);
-        let out = read_available(self.stdout.as_raw_fd());
-        let err = read_available(self.stderr.as_raw_fd());
+        // keep draining while waiting: a child with more to say than a pipe holds cannot exit
+        let t0 = Instant::now();
+        let mut out: Vec<u8> = vec![];
+        let mut err: Vec<u8> = vec![];
+        let mut status = None;
+        let mut timed_out = false;
+        loop {
+            out.extend(read_available(self.stdout.as_raw_fd()));
+            err.extend(read_available(self.stderr.as_raw_fd()));
+            match self.child.try_wait() {
+                Ok(Some(s)) => {
+                    status = Some(s);
+                    break;
+                }
+                Ok(None) => {}
+                Err(_) => break,
+            }
+            if t0.elapsed() > timeout {
+                let _ = self.child.kill();
+                status = self.child.wait().ok();
+                timed_out = true;
+                break;
+            }
+            std::thread::sleep(Duration::from_micros(200));
+        }
+        out.extend(read_available(self.stdout.as_raw_fd()));
+        err.extend(read_available(self.stderr.as_raw_fd()));
         (out, err, status.and_then(|s| s.code()), timed_out)
     }
 }
